@@ -97,6 +97,68 @@ const (
 	inflightSnapshot
 )
 
+// closeBody: the node is told to lead (or the shard moves away) and the shards director closes the follower
+// controller while an append of the deposed leader is still in flight on the open stream: the append must be
+// refused (or stored before the close), never take the node down.
+func closeBody(n int64) func(s *vsched.Sched) {
+	return func(s *vsched.Sched) {
+		s.Explore(false)
+		env := oxc.NewEnv(s)
+		net := oxc.NewNet()
+		kvf, err := kv.NewPebbleKVFactory(&kv.FactoryOptions{DataDir: filepath.Join(env.Dir, "n2", "db"), CacheSizeMB: 1})
+		if err != nil {
+			s.Fail("harness-setup", err.Error())
+			return
+		}
+		walf := wal.NewWalFactory(&wal.FactoryOptions{BaseWalDir: filepath.Join(env.Dir, "n2", "wal"), Retention: time.Hour, SegmentSize: 64 * 1024, SyncData: true})
+		fc, err := server.NewFollowerController(server.Config{NotificationsRetentionTime: time.Hour}, ns, shard, walf, kvf)
+		if err != nil {
+			s.Fail("harness-setup", err.Error())
+			return
+		}
+		defer func() {
+			_ = fc.Close()
+			_ = walf.Close()
+			_ = kvf.Close()
+		}()
+		net.Peers["n2"] = fc
+		if _, err := fc.NewTerm(&proto.NewTermRequest{Namespace: ns, Shard: shard, Term: 1, Options: &proto.NewTermOptions{EnableNotifications: true}}); err != nil {
+			s.Fail("harness-setup", err.Error())
+			return
+		}
+		stream, err := net.GetReplicateStream(context.Background(), "n2", ns, shard, 1)
+		if err != nil {
+			s.Fail("harness-setup", err.Error())
+			return
+		}
+		nacks := 0
+		vsched.Go(func() {
+			for {
+				if _, err := stream.Recv(); err != nil {
+					return
+				}
+				nacks++
+			}
+		})
+		for o := int64(0); o < n; o++ {
+			if err := stream.Send(&proto.Append{Term: 1, Entry: entry(1, o), CommitOffset: o - 1}); err != nil {
+				s.Fail("harness-setup", err.Error())
+				return
+			}
+		}
+		s.Settle()
+		s.Explore(true)
+		_ = stream.Send(&proto.Append{Term: 1, Entry: entry(1, n), CommitOffset: n - 1})
+		_ = stream.Send(&proto.Append{Term: 1, Entry: entry(1, n+1), CommitOffset: n})
+		var cerr error
+		vsched.Go(func() { cerr = fc.Close() })
+		s.Settle()
+		s.Explore(false)
+		// a panic in one of the controller's threads ends the execution as a failure of its own
+		s.Data = fmt.Sprintf("acks=%d close=%v", nacks, cerr)
+	}
+}
+
 // body: a follower with n acknowledged entries of term 1; `what` of the old leader races with NewTerm.
 func body(what int, n int64) func(s *vsched.Sched) {
 	return func(s *vsched.Sched) {
@@ -244,6 +306,7 @@ func FencingScenarios(tier string) []sched.Scenario {
 		{Name: "append-in-flight-vs-newterm", Cfg: cfg, MaxDev: dev, Body: body(inflightAppend, 3)},
 		{Name: "truncate-in-flight-vs-newterm", Cfg: cfg, MaxDev: dev, Body: body(inflightTruncate, 3)},
 		{Name: "snapshot-start-vs-newterm", Cfg: cfg, MaxDev: dev, Body: body(inflightSnapshot, 3)},
+		{Name: "append-in-flight-vs-close", Cfg: cfg, MaxDev: dev, Body: closeBody(3)},
 	}
 }
 
